@@ -7,6 +7,7 @@ from hypothesis import strategies as st
 
 from job_shop_lib.dispatching import DispatcherObserverConfig
 from job_shop_lib.generation import GeneralInstanceGenerator
+from job_shop_lib.graphs import NodeType
 from job_shop_lib.graphs.graph_updaters import ResidualGraphUpdater
 from job_shop_lib.reinforcement_learning import (
     MultiJobShopGraphEnv,
@@ -28,7 +29,7 @@ RULE = (
     "-1 for single-machine operations) x 1-4 episodes, some abandoned "
     "mid-way. Oracle after every reset / step: with padding "
     "observation_space.contains(obs) plus explicit key / shape / dtype / bound "
-    "checks; the real part of removed_nodes equals graph.removed_nodes, of "
+    "checks; the real part of removed_nodes equals graph.removed_nodes and marks as present exactly the nodes held by the networkx graph (single env: optionally the caller pruned source / sink / global / machine / job nodes through remove_node before handing the graph over), of "
     "edge_index equals the multiset of current graph edges (no -1 column "
     "before a real one), feature matrices equal the composite observer's; "
     "padding only at the end with the declared fill (True / -1); done == "
@@ -64,7 +65,14 @@ def strategy(tier):
             max_size=4,
         ),
     }
-    single = st.fixed_dictionaries(dict(common, kind=st.just("single"), inst=inst))
+    single = st.fixed_dictionaries(
+        dict(
+            common,
+            kind=st.just("single"),
+            inst=inst,
+            prune=gen.weighted((3, st.just([])), (1, st.lists(st.integers(0, 30), min_size=1, max_size=2))),
+        )
+    )
 
     @st.composite
     def gen_params(draw):
@@ -148,6 +156,12 @@ def check_mirror(ctx, inner, ob, where, padded_total=None):
         rn[:n_nodes].tolist() == [bool(x) for x in g.removed_nodes],
         "removed-nodes-mirror",
         f"{where}: obs removed_nodes {rn[:n_nodes].tolist()} != graph {list(g.removed_nodes)}",
+    )
+    present = set(g.graph.nodes())
+    ctx.check(
+        [i for i in range(n_nodes) if not rn[i]] == sorted(present),
+        "removed-nodes-graph",
+        f"{where}: obs removed_nodes marks {[i for i in range(n_nodes) if not rn[i]]} as present, the graph holds nodes {sorted(present)}",
     )
     ctx.check(bool(np.all(rn[n_nodes:])), "removed-nodes-padding", f"{where}: padding of removed_nodes is not all True: {rn[n_nodes:].tolist()}")
     ei = np.asarray(ob["edge_index"])
@@ -268,7 +282,21 @@ def check_case(case, ctx):
     builder = obs.BUILDERS[case["builder"]]
     if case["kind"] == "single":
         instance = build_instance(case["inst"])
-        env = SingleJobShopGraphEnv(builder(instance), **kw)
+        graph = builder(instance)
+        if case.get("prune"):
+            # the caller prunes nodes it has no use for (source / sink,
+            # global, machine or job nodes) through the public remove_node
+            # before handing the graph over
+            for x in case["prune"]:
+                ids = [
+                    node.node_id
+                    for node in graph.nodes
+                    if not graph.is_removed(node) and node.node_type != NodeType.OPERATION
+                ]
+                if ids:
+                    graph.remove_node(ids[x % len(ids)])
+            ctx.label("pruned_graph")
+        env = SingleJobShopGraphEnv(graph, **kw)
         removed_early = run_episodes(ctx, case, env, lambda: env, False, lambda inner, where: None)
         ctx.label(*gen.inst_labels(case["inst"]))
         multi_ok = True
